@@ -103,15 +103,38 @@ Proof. intros Hs Hf. apply split_lines_unmarked, with_style_unmarked; assumption
 Definition proc_unmarked (p : processor) : Prop :=
   match p with
   | PBeforeInput st b => unmarked_style st /\ all_unmarked b
+  | PAppend st _ _ => unmarked_style st
   | _ => True
   end.
 
+Lemma selected_unmarked st : unmarked_style st -> unmarked_style (st ++ S_SELECTED).
+Proof. intro H. change S_SELECTED with (32 :: tl S_SELECTED). apply style_join_unmarked; [exact H | vm_compute; reflexivity]. Qed.
+
+Lemma restyle_at_unmarked : forall fs i, all_unmarked fs -> all_unmarked (restyle_at i S_SELECTED fs).
+Proof.
+  induction fs as [|f r IH]; intros i H; cbn [restyle_at]; [constructor|].
+  inversion H; subst. destruct (i =? 0); constructor; try assumption; [apply selected_unmarked; assumption | apply IH; assumption].
+Qed.
+
+Lemma select_loop_unmarked n : forall i fs, all_unmarked fs -> all_unmarked (select_loop n i fs).
+Proof.
+  induction n as [|k IH]; intros i fs H; cbn [select_loop]; [exact H|]. apply IH.
+  destruct (i <? len fs); [apply restyle_at_unmarked; exact H|].
+  destruct (i =? len fs); [|exact H].
+  apply Forall_app. split; [exact H | constructor; [vm_compute; reflexivity | constructor]].
+Qed.
+
 Lemma apply_proc_unmarked p i fs : proc_unmarked p -> all_unmarked fs -> all_unmarked (apply_proc p i fs).
 Proof.
-  intros Hp Hf. destruct p as [|ch|st b]; cbn [apply_proc]; [exact Hf | |].
+  intros Hp Hf. destruct p as [|ch|st b|st tx last|sel]; cbn [apply_proc]; [exact Hf | | | |].
   - unfold all_unmarked in *. apply Forall_map. eapply Forall_impl; [|exact Hf]. intros f H. exact H.
   - destruct Hp as [Hs Hb]. destruct (i =? 0); [|exact Hf].
     apply Forall_app. split; [apply with_style_unmarked; assumption | exact Hf].
+  - destruct (i =? last); [|exact Hf]. apply Forall_app. split; [exact Hf | constructor; [exact Hp | constructor]].
+  - destruct (sel i) as [[from to]|]; [|exact Hf].
+    destruct ((from =? 0) && (to =? 0) && (len (explode fs) =? 0)).
+    + constructor; [vm_compute; reflexivity | constructor].
+    + apply select_loop_unmarked, explode_unmarked. exact Hf.
 Qed.
 
 Lemma apply_procs_unmarked ps i : Forall proc_unmarked ps -> forall fs, all_unmarked fs -> all_unmarked (apply_procs ps i fs).
@@ -157,6 +180,34 @@ Proof.
     apply Forall_app. split; [apply trim_ft_unmarked; exact Hd | constructor; [exact nil_unmarked | constructor]].
 Qed.
 
+Lemma menu_meta_unmarked wc meta cur width : all_unmarked meta -> all_unmarked (menu_meta wc meta cur width).
+Proof.
+  intro H. unfold menu_meta. apply with_style_unmarked; [destruct cur; vm_compute; reflexivity|].
+  apply Forall_app. split; [constructor; [exact nil_unmarked | constructor]|].
+  apply Forall_app. split; [apply trim_ft_unmarked; exact H | constructor; [exact nil_unmarked | constructor]].
+Qed.
+
+Lemma until_nl_unmarked : forall l, all_unmarked l -> all_unmarked (fst (until_nl l)) /\ all_unmarked (snd (until_nl l)).
+Proof.
+  induction l as [|f r IH]; intro H; cbn [until_nl]; [split; constructor|].
+  inversion H as [|? ? Hf Hr]; subst. destruct (is_nl f); cbn [fst snd]; [split; [constructor | assumption]|].
+  destruct (IH Hr) as [G1 G2]. split; [constructor; assumption | exact G2].
+Qed.
+
+Lemma all_unmarked_rev l : all_unmarked l -> all_unmarked (rev l).
+Proof. apply Forall_rev. Qed.
+
+Lemma prompt_split_unmarked fs : all_unmarked fs ->
+  all_unmarked (prompt_first_input_line fs) /\ all_unmarked (prompt_before fs).
+Proof.
+  intro H. unfold prompt_first_input_line, prompt_before.
+  destruct (until_nl_unmarked (rev (explode fs)) (all_unmarked_rev _ (explode_unmarked fs H))) as [H1 H2].
+  split; apply all_unmarked_rev; assumption.
+Qed.
+
+Lemma prompt_style_unmarked : unmarked_style S_PROMPT /\ unmarked_style S_PROMPT_CONT.
+Proof. split; vm_compute; reflexivity. Qed.
+
 (* ------------------------------------------------------------ unmarked lines through the renderer *)
 
 Lemma unmarked_frags_marked fs : all_unmarked fs -> frags_marked [] fs.
@@ -173,6 +224,20 @@ Qed.
 
 Definition pfx_unmarked (pfx : option (Z -> Z -> list frag)) : Prop :=
   match pfx with Some p => forall l w, all_unmarked (p l w) | None => True end.
+
+Lemma session_prefix_unmarked message cont : all_unmarked message -> all_unmarked cont ->
+  pfx_unmarked (Some (session_prefix message cont)).
+Proof.
+  intros Hm Hc l w. unfold session_prefix. destruct ((l =? 0) && (w =? 0)).
+  - apply prompt_split_unmarked, with_style_unmarked; [apply prompt_style_unmarked | exact Hm].
+  - apply with_style_unmarked; [apply prompt_style_unmarked | exact Hc].
+Qed.
+
+Lemma session_before_unmarked message : all_unmarked message -> Forall all_unmarked (session_before_lines message).
+Proof.
+  intro H. apply ftc_lines_unmarked; [exact nil_unmarked|].
+  apply prompt_split_unmarked, with_style_unmarked; [apply prompt_style_unmarked | exact H].
+Qed.
 
 (* No fragment marked: no byte is passed through raw, and every control
    character of the stream was generated by the renderer. *)
@@ -234,4 +299,36 @@ Theorem plain_message_stream wc sty g lexstyle mstyle message text app width ri 
 Proof.
   intros Hw Hs Hm. apply plain_buffer_stream; [exact Hw | exact Hs |].
   constructor; [|constructor]. split; [exact Hm | apply ft_of_str_unmarked].
+Qed.
+
+(* The prompt message the way PromptSession shows it: the part after the last
+   line end as the line prefix of the input window (continuation fragments on
+   the other rows), the lines before it in a FormattedTextControl above. *)
+Theorem plain_session_input_stream wc sty g lexstyle ps message cont text app width ri x y last vis :
+  wc_ascii wc -> unmarked_style lexstyle -> Forall proc_unmarked ps -> all_unmarked cont ->
+  forall o c, In (o, c) (tagged_stream (rendered_tokens wc sty g
+        (Some (session_prefix (ft_of_str message) cont)) (buffer_lines lexstyle ps text) app width ri x y last vis)) ->
+  (o = FromZWE -> False) /\ (is_control c = true -> o = FromRenderer).
+Proof.
+  intros Hw Hs Hp Hc. apply unmarked_lines_stream;
+    [exact Hw | apply session_prefix_unmarked; [apply ft_of_str_unmarked | exact Hc] | apply buffer_lines_unmarked; assumption].
+Qed.
+
+Theorem plain_session_before_stream wc sty g message app width ri x y last vis :
+  wc_ascii wc ->
+  forall o c, In (o, c) (tagged_stream (rendered_tokens wc sty g None
+        (session_before_lines (ft_of_str message)) app width ri x y last vis)) ->
+  (o = FromZWE -> False) /\ (is_control c = true -> o = FromRenderer).
+Proof.
+  intros Hw. apply unmarked_lines_stream; [exact Hw | exact I | apply session_before_unmarked, ft_of_str_unmarked].
+Qed.
+
+Theorem plain_meta_stream wc sty g meta cur w app width ri x y last vis :
+  wc_ascii wc ->
+  forall o c, In (o, c) (tagged_stream (rendered_tokens wc sty g None
+        [menu_meta wc (ft_of_str meta) cur w] app width ri x y last vis)) ->
+  (o = FromZWE -> False) /\ (is_control c = true -> o = FromRenderer).
+Proof.
+  intros Hw. apply unmarked_lines_stream; [exact Hw | exact I |].
+  constructor; [|constructor]. apply menu_meta_unmarked, ft_of_str_unmarked.
 Qed.
